@@ -824,7 +824,7 @@ func main() {
 	for i, c := range classicCorpus() {
 		emitClassic(c, gen.Fork(f.Seed, 2000000+i))
 	}
-	n := f.Count(170, 4000)
+	n := f.Count(140, 4000)
 	for i := 0; i < n; i++ {
 		r := gen.Fork(f.Seed, i)
 		if i%5 < 3 {
